@@ -12,6 +12,7 @@ from . import spec
 
 NS_URIS = ["http://a/", "http://a/x/", "http://b/ns#", "urn:c:", "http://d.org/"]
 PREFIXES = ["ex", "p", "ex_1", "dn", "dn_1", "q"]
+RESERVED_PREFIXES = ["xsd", "prov", "xsi"]   # user declarations of these must be renamed, never shadow the built-ins
 ID_LOCALS = ["e1", "e2", "a1", "ag1", "x", "r1"]
 ATTR_LOCALS = ["k", "k2", "name"]
 TYPES_NS = "http://types.example/t#"   # a namespace documents never register themselves
@@ -51,7 +52,7 @@ def local_part(draw, profile="json", role="id"):
 def name_ref(draw, profile="json", role="id", spellings=("qn", "qn", "str", "bare", "uri")):
     ns = draw(st.sampled_from(NS_URIS if role != "id" else NS_URIS + NS_URIS[:1] * 3))
     local = draw(local_part(profile, role))
-    prefix = draw(st.sampled_from(PREFIXES + ([""] if profile not in ("rdf", "io") else [])))
+    prefix = draw(st.sampled_from(PREFIXES + PREFIXES + (["", "xsd", "prov"] if profile not in ("rdf", "io") else [])))
     as_ = draw(st.sampled_from(spellings))
     return {"ns": ns, "local": local, "prefix": prefix, "as": as_}
 
@@ -303,8 +304,9 @@ def record_op(draw, profile="json", kinds=None, anon_rate=5):
 
 
 def ns_op(profile):
-    return st.builds(lambda s, p, u: ["ns", s, p, u], st.integers(0, 7), st.sampled_from(PREFIXES),
-                     st.sampled_from(NS_URIS))
+    return st.builds(lambda s, p, u: ["ns", s, p, u], st.integers(0, 7),
+                     st.sampled_from(PREFIXES + PREFIXES + RESERVED_PREFIXES),
+                     st.sampled_from(NS_URIS + ["http://www.w3.org/2001/XMLSchema"]))
 
 
 def default_op(profile):
